@@ -500,6 +500,34 @@ func (w *dimWalker) call(c *ast.CallExpr) dimShape {
 			}
 			return nil
 		}
+		// a library function that hands the elements of a slice argument to a callback argument (slices.SortFunc, IndexFunc, ContainsFunc,
+		// MaxFunc ...): the callback's parameters of the element type are elements of that slice (added after seeded change C17g, whose
+		// comparator truncated the difference of two coordinates)
+		for i, a := range args {
+			es, isSl := a.(dimElem)
+			if !isSl {
+				continue
+			}
+			st, ok := w.info.TypeOf(c.Args[i]).Underlying().(*types.Slice)
+			if !ok {
+				continue
+			}
+			for _, a2 := range c.Args {
+				fl, ok := stripParens(a2).(*ast.FuncLit)
+				if !ok || fl.Type.Params == nil {
+					continue
+				}
+				for _, f := range fl.Type.Params.List {
+					for _, nm := range f.Names {
+						if o := w.info.ObjectOf(nm); o != nil && types.Identical(o.Type(), st.Elem()) {
+							if ps := ds.shapeOfVar(o); ps != nil {
+								ds.unify(ps, es.e, nm.Pos(), w.fn, "callback parameter of "+full)
+							}
+						}
+					}
+				}
+			}
+		}
 		return ds.shapeOfType(w.info.TypeOf(c), "result of "+full, 0)
 	}
 	// call of a func-typed variable: unify with the signature's parameter objects when they are named
